@@ -691,7 +691,7 @@ class Producer(Destination):
                     clamped_expiration=str(int(float(message.expiration)))
                     if clamped_expiration.startswith("-"):
                         clamped_expiration = "0"
-                except ValueError as e:
+                except (ValueError, OverflowError) as e:
                     clamped_expiration = "0"
 
             properties = pika.BasicProperties(
